@@ -55,6 +55,9 @@ func (recWorld) Gen(seed uint64, tier string) core.Scenario {
 	s.Res = uint16(r.PickInt(24, 96, 480, 960, 15360, r.Range(24, 15360)))
 	all := LiveOpts{ActiveSense: true, TimeCode: true, SysEx: true, BufSize: 0}
 	n := r.PickInt(1, 2, 4, 8, 20, 50)
+	if tier == "thorough" && r.Chance(1, 5) {
+		n = 200
+	}
 	stream, _ := genWellFormed(r, all, n, true)
 	// stray data bytes and undefined bytes at seeded positions
 	if r.Chance(1, 3) {
